@@ -9,7 +9,7 @@ for id in $IDS; do
   git -C /repo diff --quiet || { echo "repo dirty"; exit 2; }
   if ! git -C /repo apply "$PWD/$d/patch.diff" 2>/dev/null; then echo "$id: PATCH DOES NOT APPLY"; MISS=1; continue; fi
   S=$(date +%s)
-  OUT=$(timeout 1500 bin/check $P --tier quick 2>&1); RC=$?
+  OUT=$(VERIF_SCRATCH=1 timeout 1500 bin/check $P --tier quick 2>&1); RC=$?
   E=$(date +%s)
   git -C /repo checkout -q -- .
   CL=$(echo "$OUT" | grep -o "violated clause '[^']*' in part [A-Za-z0-9_-]*" | sort | uniq -c | sort -rn | head -4 | sed "s/ *\([0-9]*\) violated clause '\([^']*\)' in part \(.*\)/\3:\2/" | tr '\n' ' ')
